@@ -15,6 +15,7 @@ VERIF = os.path.dirname(os.path.dirname(os.path.abspath(__file__)))
 REPO = os.environ.get('VERIF_REPO', '/repo')
 PY = os.environ.get('VERIF_PYTHON', '/venv/bin/python')
 WORKER = os.path.join(VERIF, 'sim', 'worker.py')
+OUT = os.environ.get('VERIF_OUT', VERIF)     # evidence/ and replays/ live here (scratch experiments redirect it)
 NPROC = int(os.environ.get('VERIF_JOBS', str(min(16, os.cpu_count() or 4))))
 
 EXIT_OK, EXIT_VIOLATION, EXIT_HARNESS = 0, 1, 2
@@ -147,10 +148,10 @@ def finish(pid, tier, seed, results, skipped, fatal, t0, out):
 
     # confirm candidates from their replay files, in fresh interpreters
     violations, knowns, unconfirmed = [], [], []
-    os.makedirs(os.path.join(VERIF, 'replays'), exist_ok=True)
+    os.makedirs(os.path.join(OUT, 'replays'), exist_ok=True)
     for k, key in enumerate(sorted(cands)):
         v = cands[key]
-        path = os.path.join(VERIF, 'replays', '%s-%d-%d.json' % (pid, seed, k))
+        path = os.path.join(OUT, 'replays', '%s-%d-%d.json' % (pid, seed, k))
         rep = {'property': pid, 'verif_seed': seed, 'tier': tier, 'round': v['round'], 'hashseed': v['hashseed'],
                'python': PY, 'cls': v['cls'], 'site': v['site'], 'tags': v.get('tags', []), 'detail': v['detail'],
                'case': v['case'], 'original_case': v.get('orig_case'), 'shrink_evals': v.get('shrink_evals')}
@@ -208,8 +209,8 @@ def finish(pid, tier, seed, results, skipped, fatal, t0, out):
         },
         'assumptions': meta['assumptions'],
     }
-    os.makedirs(os.path.join(VERIF, 'evidence'), exist_ok=True)
-    with open(os.path.join(VERIF, 'evidence', pid + '.json'), 'w', encoding='utf-8') as f:
+    os.makedirs(os.path.join(OUT, 'evidence'), exist_ok=True)
+    with open(os.path.join(OUT, 'evidence', pid + '.json'), 'w', encoding='utf-8') as f:
         json.dump(ev, f, ensure_ascii=False, indent=1)
     print('%s: %d evaluations, %d distinct non-trivial, %d schedules, %d hash seeds, %d ticks, %.1fs; violations=%d known=%d harness=%d' % (
         pid, cases, len(keys), len(scheds), len(results), ticks, wall, len(violations), len(knowns), len(fatal)), file=out)
